@@ -61,6 +61,8 @@ def main():
                 checks[p] = {"exit": rc, "wall_s": round(time.time() - t0, 1), "lines": [l[:300] for l in lines[:8]], "via": "ODX_REPO=scratch worktree"}
         finally:
             sh(f"git -C {REPO} worktree remove --force {wt}")
+            # the run regenerated lean/OdxVerif/Gen/*.lean from the *mutated* tree: put the committed tables back
+            sh(f"git -C {VERIF} checkout -q -- lean/OdxVerif/Gen")
     elif confirmed:
         rc, o = sh(f"git -C {REPO} status --short")
         assert o.strip() == "", "/repo is not clean: " + o
